@@ -90,6 +90,18 @@ type nPair struct {
 }
 
 func newNativePair() (*nPair, error) {
+	p, err := newNativePairNoInit()
+	if err != nil {
+		return nil, err
+	}
+	p.proc = &nProc{}
+	p.proc.w = p.w
+	p.w.InitDataProcessing(p.proc)
+	return p, nil
+}
+
+// the connection without a data processor (the caller attaches one via InitDataProcessing)
+func newNativePairNoInit() (*nPair, error) {
 	p := &nPair{}
 	peerCh := make(chan *websocket.Conn, 1)
 	up := websocket.Upgrader{}
@@ -116,10 +128,7 @@ func newNativePair() (*nPair, error) {
 	case <-time.After(2 * time.Second):
 		return nil, errors.New("no peer")
 	}
-	p.proc = &nProc{}
 	p.w = NewWebsocketConnection(conn, "ski")
-	p.proc.w = p.w
-	p.w.InitDataProcessing(p.proc)
 	return p, nil
 }
 
